@@ -99,11 +99,14 @@ def build_shim():
     src = os.path.join(ROOT, "shim", "fsshim.c")
     if not os.path.exists(src):
         return
-    if os.path.exists(SHIM_SO) and os.path.getmtime(SHIM_SO) >= os.path.getmtime(src):
-        return
-    rc, out = sh(["gcc", "-O1", "-shared", "-fPIC", "-o", SHIM_SO, src, "-ldl", "-lpthread"])
-    if rc != 0:
-        raise RuntimeError("shim build failed: " + out)
+    with build_lock("shim"):
+        if os.path.exists(SHIM_SO) and os.path.getmtime(SHIM_SO) >= os.path.getmtime(src):
+            return
+        tmp = SHIM_SO + f".tmp.{os.getpid()}"
+        rc, out = sh(["gcc", "-O1", "-shared", "-fPIC", "-o", tmp, src, "-ldl", "-lpthread"])
+        if rc != 0:
+            raise RuntimeError("shim build failed: " + out)
+        os.replace(tmp, SHIM_SO)
 
 
 def lean_build(targets):
